@@ -141,6 +141,15 @@ fn compress(input: PathBuf, output: PathBuf, level: u8) -> color_eyre::Result<()
 
 fn decompress(input: PathBuf, output: PathBuf) -> color_eyre::Result<()> {
     info!("extracting {input:?} to {output:?}");
+    // An archive without an extension has itself as default output name: creating the output would truncate the
+    // archive before it has been read
+    if let (Ok(input_path), Ok(output_path)) = (input.canonicalize(), output.canonicalize()) {
+        if input_path == output_path {
+            return Err(eyre!(
+                "output file {output:?} is the input file, specify a different output file"
+            ));
+        }
+    }
     let source_file = File::open(input).wrap_err("failed to open input file")?;
     let source_size = source_file.metadata()?.len() as usize;
     let buffered_source = BufReader::new(source_file);
